@@ -82,4 +82,22 @@ Qed.
 (* the perturbed temperatures at which the composition is re-solved for dx/dT *)
 Lemma gen_kappa_T_pm T delta : gen_kappa_T_pos RNum T delta = T * (1 + delta) /\ gen_kappa_T_neg RNum T delta = T * (1 - delta).
 Proof. unfold gen_kappa_T_pos, gen_kappa_T_neg. rnum. split; reflexivity. Qed.
+(* ---- the assembly of q / qhat as coded (which collision integrals each block receives, the mass-ratio transposes, the
+   np.block layout) is the block layout of the model ---- *)
+Lemma gen_qblock_model (Q : qints) masses nb nd a b i j :
+  gen_qblock RNum (I11 Q) (I12 Q) (I13 Q) (I14 Q) (I15 Q) (I16 Q) (I17 Q) (I22 Q) (I23 Q) (I24 Q) (I25 Q) (I26 Q)
+             (I33 Q) (I34 Q) (I35 Q) (I44 Q) masses nb nd a b i j
+  = qblock RNum Q masses nb nd a b i j.
+Proof.
+  unfold gen_qblock, qblock, b00, b01, b02, b03, b11, b12, b13, b22, b23, b33, mr.
+  destruct a as [|[|[|[|a]]]]; destruct b as [|[|[|[|b]]]]; first [reflexivity | rnum; ring].
+Qed.
+
+Lemma gen_qhatblock_model (Q : qints) masses nb nd a b i j :
+  gen_qhatblock RNum (I11 Q) (I12 Q) (I13 Q) (I22 Q) (I23 Q) (I24 Q) (I33 Q) masses nb nd a b i j
+  = qhatblock RNum Q masses nb nd a b i j.
+Proof.
+  unfold gen_qhatblock, qhatblock, h00, h01, h11, mr.
+  destruct a as [|[|a]]; destruct b as [|[|b]]; first [reflexivity | rnum; ring].
+Qed.
 End Final.
